@@ -607,6 +607,7 @@ func (r *Raft) AddServer(
 
 	// Add the configuration to the log.
 	r.appendConfiguration(&configuration)
+	r.configurationResponseCh = configurationFuture.responseCh
 
 	r.configuration = &configuration
 	r.followers[id] = &follower{nextIndex: 1}
@@ -670,6 +671,7 @@ func (r *Raft) RemoveServer(id string, timeout time.Duration) Future[Configurati
 
 	// Add the configuration to the log.
 	r.appendConfiguration(&configuration)
+	r.configurationResponseCh = configurationFuture.responseCh
 
 	r.sendAppendEntriesToPeers()
 
@@ -1787,6 +1789,7 @@ func (r *Raft) applyLoop() {
 			case ConfigurationEntry:
 				r.applyConfiguration(entry.Data)
 				respond(r.configurationResponseCh, *r.configuration, nil)
+				r.configurationResponseCh = nil
 			case OperationEntry:
 				responseCh := r.operationManager.pendingReplicated[entry.Index]
 				delete(r.operationManager.pendingReplicated, entry.Index)
@@ -1941,6 +1944,7 @@ func (r *Raft) becomeFollower(leaderID string, term uint64) {
 	// Cancel any pending operations.
 	r.operationManager.notifyLostLeaderShip(r.id, r.leaderID)
 	r.operationManager = newOperationManager(r.options.leaseDuration)
+	r.cancelConfigurationChange()
 
 	r.logger.Infof("entered the follower state: term = %d", r.currentTerm)
 }
@@ -1954,8 +1958,16 @@ func (r *Raft) stepdown() {
 	// Cancel any pending operations.
 	r.operationManager.notifyLostLeaderShip(r.id, r.leaderID)
 	r.operationManager = newOperationManager(r.options.leaseDuration)
+	r.cancelConfigurationChange()
 
 	r.logger.Info("stepped down to the follower state")
+}
+
+// cancelConfigurationChange responds to a pending membership change request with an
+// error. The change may still be committed by another leader.
+func (r *Raft) cancelConfigurationChange() {
+	respond(r.configurationResponseCh, Configuration{}, ErrNotLeader)
+	r.configurationResponseCh = nil
 }
 
 // tryApplyReadOnlyOperations renews the lease and notifies the read-only
